@@ -21,6 +21,7 @@ package main
 import (
 	"bytes"
 	"encoding/json"
+	"errors"
 	"fmt"
 	"io"
 	"io/ioutil"
@@ -558,17 +559,54 @@ func c11runChain(c *hx.Ctx, cs c11case) error {
 
 // c11runF5: the scripted reorganisation of finding F5.  Block K kills a validated identity (diff stored); a second
 // node builds a competing block K without any identity change; the first node switches to it (ResetTo(K-1) + AddBlock).
+// scenarioErr: a scripted precondition could not be established for this seed (not a verdict about /repo).
+type scenarioErr struct{ reason, detail string }
+
+func (e scenarioErr) Error() string { return "scenario: " + e.reason + " " + e.detail }
+
+func scn(reason, detail string) error { return scenarioErr{reason, detail} }
+
+var c11built, c11skipped = map[string]int{}, map[string]int{}
+
+// scripted runs a scripted case; when its preconditions cannot be built for the seed it retries with derived seeds
+// (seed + 1000·k, k ≤ 5) and otherwise counts the case as skipped.
+func scripted(c *hx.Ctx, cs c11case, run func(*hx.Ctx, c11case) error) error {
+	reason := ""
+	for k := 0; k <= 5; k++ {
+		cs2 := cs
+		cs2.Seed = cs.Seed + int64(1000*k)
+		err := run(c, cs2)
+		var se scenarioErr
+		if errors.As(err, &se) {
+			reason = se.reason
+			c.Hit("retry:" + cs.Kind + ":" + reason)
+			continue
+		}
+		if err == nil {
+			c11built[cs.Kind]++
+			c.Hit("built:" + cs.Kind)
+		}
+		return err
+	}
+	c11skipped[cs.Kind]++
+	c.Hit("skipped:" + cs.Kind + ":" + reason)
+	return nil
+}
+
 func c11runF5(c *hx.Ctx, cs c11case) error {
 	defer os.RemoveAll("./testdata")
 	defer os.RemoveAll("./testdata2")
 	x, h, err := c11start(c, cs, false)
 	if err != nil {
-		return err
+		return scn("fixture", err.Error())
 	}
 	var canon []*types.Block
 	for b := 1; b <= 3; b++ {
 		blk, err := x.step(h, b, true)
 		if err != nil {
+			if errors.Is(err, chainfx.ErrNotEligible) {
+				return scn("proposer-not-eligible", "")
+			}
 			x.fail("C11:history-broken", err.Error())
 			return nil
 		}
@@ -577,43 +615,46 @@ func c11runF5(c *hx.Ctx, cs c11case) error {
 	// the other node follows the same chain (it has no transactions of its own)
 	other, err := x.w.StartNode(nil, 0, false)
 	if err != nil {
-		return err
+		return scn("fixture", err.Error())
 	}
 	for _, blk := range canon {
 		cb, _ := chainfx.CloneBlock(blk)
 		if err := other.Add(cb); err != nil {
-			return fmt.Errorf("follower rejected block: %w", err)
+			return scn("follower-rejected-block", err.Error())
 		}
 	}
 	victim := 1 + int(cs.Seed%2)*4 // key 1 or key 5: both Verified in chainfx.DefaultStates
 	if !x.n.App.IdentityState.IsValidated(x.w.Addrs[victim]) {
-		return fmt.Errorf("scenario: victim is not validated")
+		return scn("victim-not-validated", "")
 	}
 	if _, err := h.S.Send(x.n, victim, &types.Transaction{Type: types.KillTx}); err != nil {
-		return fmt.Errorf("scenario: kill tx refused: %w", err)
+		return scn("kill-tx-refused", err.Error())
 	}
 	chainfx.Advance(20 * time.Second)
 	p, err := x.n.Propose()
 	if err != nil {
-		return err
+		return scn("fixture", err.Error())
 	}
 	if err := x.add(p.Block); err != nil {
+		if errors.Is(err, chainfx.ErrNotEligible) {
+			return scn("proposer-not-eligible", "")
+		}
 		x.fail("C11:history-broken", err.Error())
 		return nil
 	}
 	K := p.Block.Height()
 	if x.n.Chain.GetIdentityDiff(K).Empty() || x.n.App.IdentityState.IsValidated(x.w.Addrs[victim]) {
-		return fmt.Errorf("scenario: the kill block did not store an identity diff")
+		return scn("kill-block-without-diff", "")
 	}
 	c.Hit("f5:kill-block-diff-stored")
 	x.replayLine()
 	// competing block K without identity change
 	p2, err := other.Propose()
 	if err != nil {
-		return err
+		return scn("fixture", err.Error())
 	}
 	if len(p2.Block.Body.Transactions) != 0 {
-		return fmt.Errorf("scenario: competing block is not empty of transactions")
+		return scn("competing-block-has-txs", "")
 	}
 	if err := x.reset(K - 1); err != nil {
 		x.fail("C11:history-broken", "ResetTo: "+err.Error())
@@ -621,14 +662,17 @@ func c11runF5(c *hx.Ctx, cs c11case) error {
 	}
 	cb, _ := chainfx.CloneBlock(p2.Block)
 	if err := x.add(cb); err != nil {
+		if errors.Is(err, chainfx.ErrNotEligible) {
+			return scn("proposer-not-eligible", "")
+		}
 		x.fail("C11:history-broken", err.Error())
 		return nil
 	}
 	if !x.actual[K].Empty() {
-		return fmt.Errorf("scenario: competing block changes the identity state")
+		return scn("competing-block-changes-identities", "")
 	}
 	if p2.Block.IdentityRoot() != canon[len(canon)-1].IdentityRoot() {
-		return fmt.Errorf("scenario: competing block's identity root differs from its parent's")
+		return scn("competing-block-root-differs", "")
 	}
 	c.Hit("f5:new-canonical-block-with-empty-diff")
 	x.served(K)
@@ -636,6 +680,9 @@ func c11runF5(c *hx.Ctx, cs c11case) error {
 	// and the chain goes on
 	for b := 0; b < 2 && !x.failed; b++ {
 		if _, err := x.step(h, 10+b, true); err != nil {
+			if errors.Is(err, chainfx.ErrNotEligible) {
+				return scn("proposer-not-eligible", "")
+			}
 			x.fail("C11:history-broken", err.Error())
 			return nil
 		}
@@ -657,23 +704,26 @@ func c11runFsync(c *hx.Ctx, cs c11case) error {
 	defer os.RemoveAll("./testdata2")
 	x, h, err := c11start(c, cs, false)
 	if err != nil {
-		return err
+		return scn("fixture", err.Error())
 	}
 	r := h.R
 	S, err := x.w.StartNode(nil, 0, false)
 	if err != nil {
-		return err
+		return scn("fixture", err.Error())
 	}
 	common0 := 2 + r.Intn(3)
 	for b := 1; b <= common0; b++ {
 		blk, err := x.step(h, b, true)
 		if err != nil {
+			if errors.Is(err, chainfx.ErrNotEligible) {
+				return scn("proposer-not-eligible", "")
+			}
 			x.fail("C11:history-broken", err.Error())
 			return nil
 		}
 		cb, _ := chainfx.CloneBlock(blk)
 		if err := S.Add(cb); err != nil {
-			return fmt.Errorf("follower rejected block: %w", err)
+			return scn("follower-rejected-block", err.Error())
 		}
 	}
 	cH := x.n.Chain.Head.Height()
@@ -686,23 +736,25 @@ func c11runFsync(c *hx.Ctx, cs c11case) error {
 		}
 	}
 	if len(victims) < 2 {
-		c.Hit("fsync:skipped-no-victims")
-		return nil
+		return scn("no-victims", "")
 	}
 	r.Shuffle(len(victims), func(i, j int) { victims[i], victims[j] = victims[j], victims[i] })
 	for k := 1; k <= 3; k++ {
 		if k == 2 {
 			if _, err := h.S.Send(x.n, victims[0], &types.Transaction{Type: types.KillTx}); err != nil {
-				return fmt.Errorf("scenario: kill tx refused: %w", err)
+				return scn("kill-tx-refused", err.Error())
 			}
 		}
 		if _, err := x.step(h, 20+k, k != 2 && r.Intn(2) == 0); err != nil {
+			if errors.Is(err, chainfx.ErrNotEligible) {
+				return scn("proposer-not-eligible", "")
+			}
 			x.fail("C11:history-broken", err.Error())
 			return nil
 		}
 	}
 	if x.n.Chain.GetIdentityDiff(cH + 2).Empty() {
-		return fmt.Errorf("scenario: A(c+2) carries no identity diff")
+		return scn("fork-block-without-diff", "")
 	}
 	c.Hit("fsync:abandoned-fork-diff-stored")
 	// the canonical chain on S
@@ -712,26 +764,26 @@ func c11runFsync(c *hx.Ctx, cs c11case) error {
 	for k := 1; k <= 5; k++ {
 		if k == 3 {
 			if _, err := sS.Send(S, victims[1], &types.Transaction{Type: types.KillTx}); err != nil {
-				return fmt.Errorf("scenario: kill tx refused on S: %w", err)
+				return scn("kill-tx-refused", err.Error())
 			}
 		}
 		chainfx.Advance(20 * time.Second)
 		p, err := S.Propose()
 		if err != nil {
-			return err
+			return scn("fixture", err.Error())
 		}
 		d, err := S.Chain.FxC11BlockDiff(p.Block)
 		if err != nil {
-			return err
+			return scn("fixture", err.Error())
 		}
 		if err := S.Add(p.Block); err != nil {
-			return err
+			return scn("fixture", err.Error())
 		}
 		sActual[p.Block.Height()] = d
 		canon = append(canon, p.Block)
 	}
 	if !sActual[cH+2].Empty() || sActual[cH+3].Empty() {
-		return fmt.Errorf("scenario: canonical chain does not have the intended diffs")
+		return scn("canonical-diffs-not-as-intended", "")
 	}
 	// fork switch of D: reset to the common block + B(c+1)
 	if err := x.reset(cH); err != nil {
@@ -740,6 +792,9 @@ func c11runFsync(c *hx.Ctx, cs c11case) error {
 	}
 	cb, _ := chainfx.CloneBlock(canon[0])
 	if err := x.add(cb); err != nil {
+		if errors.Is(err, chainfx.ErrNotEligible) {
+			return scn("proposer-not-eligible", "")
+		}
 		x.fail("C11:history-broken", err.Error())
 		return nil
 	}
@@ -747,7 +802,7 @@ func c11runFsync(c *hx.Ctx, cs c11case) error {
 	fs := protocol.VerifC11NewFastSync(x.n.Chain, x.n.App, x.n.Cfg)
 	from, err := fs.PreConsuming(x.n.Chain.Head)
 	if err != nil || from != cH+2 {
-		return fmt.Errorf("scenario: preConsuming from=%d err=%v", from, err)
+		return scn("preconsuming", fmt.Sprintf("from=%d err=%v", from, err))
 	}
 	var hdrs []*types.Header
 	var certs []*types.BlockCert
@@ -755,7 +810,7 @@ func c11runFsync(c *hx.Ctx, cs c11case) error {
 	for hh := from; hh <= cH+5; hh++ {
 		hdr, diff, err := protocol.VerifC11Wire(S.Chain.GetBlockHeaderByHeight(hh), S.Chain.GetIdentityDiff(hh))
 		if err != nil {
-			return err
+			return scn("fixture", err.Error())
 		}
 		hdrs, certs, diffs = append(hdrs, hdr), append(certs, nil), append(diffs, diff)
 	}
@@ -764,7 +819,7 @@ func c11runFsync(c *hx.Ctx, cs c11case) error {
 		return nil
 	}
 	if ph := x.n.Chain.PreliminaryHead; ph == nil || ph.Hash() != S.Chain.Head.Hash() {
-		return fmt.Errorf("scenario: fast sync did not reach the canonical head")
+		return scn("preliminary-head-not-reached", "")
 	}
 	for hh := from; hh <= cH+5; hh++ {
 		x.actual[hh] = sActual[hh]
@@ -1438,9 +1493,9 @@ func c11run(c *hx.Ctx, cs c11case) error {
 	case "chain":
 		return c11runChain(c, cs)
 	case "f5":
-		return c11runF5(c, cs)
+		return scripted(c, cs, c11runF5)
 	case "fsync":
-		return c11runFsync(c, cs)
+		return scripted(c, cs, c11runFsync)
 	case "snap", "snapbig":
 		return c11runSnap(c, cs)
 	}
@@ -1505,6 +1560,11 @@ func init() {
 			}
 			if err := run(cs); err != nil {
 				return err
+			}
+		}
+		for _, k := range []string{"f5", "fsync"} {
+			if c11built[k] < c11skipped[k] {
+				return fmt.Errorf("only %d of %d %s scenarios could be built", c11built[k], c11built[k]+c11skipped[k], k)
 			}
 		}
 		c.Rep.Distinct = 0 // Close() fills it from the distinct keys
